@@ -248,6 +248,11 @@ def readerOrderOK : List ROp → Bool
   | .listIndex :: rest => !rest.contains .listSnapshots
   | _ :: rest => readerOrderOK rest
 
+/-- a long-running reader (fuse `updateSnapshots`) that found a changed snapshot set: after its
+    last snapshot listing it lists (reloads) the index again -/
+def refreshReloads (ops : List ROp) : Bool :=
+  (ops.reverse.takeWhile (· != .listSnapshots)).contains .listIndex && ops.contains .listSnapshots
+
 /-! ### C26: snapshot rewrites (tag, rewrite, repair snapshots)
 
 One automaton for a whole command run (several snapshots are processed one after the other):
